@@ -110,3 +110,14 @@ func (a *archetype) bindMany(e []Entity) {
 	a.storage.AddRows(ids)
 	a.entities = append(a.entities, e...)
 }
+
+// unbind 解除实体与原型的绑定：移除存储行与查询用途实体列表中的记录
+func (a *archetype) unbind(entity Entity) {
+	a.storage.DelRow(entity.id())
+	for i, e := range a.entities {
+		if e == entity {
+			a.entities = append(a.entities[:i], a.entities[i+1:]...)
+			break
+		}
+	}
+}
